@@ -441,6 +441,15 @@ func (it *Interp) Eval(fn *ssa.Function, args []any, depth int) (rets []any, ok 
 			}
 		case *ssa.Call:
 			callee := x.Call.StaticCallee()
+			// absolute value (math.Abs or a module helper named abs): an uninterpreted function symbol of its
+			// argument polynomial. |p| is not a polynomial, so a cell specified as a polynomial (e.g. -ty) that
+			// holds abs(...) differs from the specification (they disagree wherever the argument changes sign).
+			if callee != nil && len(x.Call.Args) == 1 && (callee.Name() == "abs" && InModule(callee) || CalleeName(x) == "math.Abs") {
+				if p, ok := num(x.Call.Args[0]); ok {
+					env[x] = &Node{Typ: x.Type(), Leaf: PSym("abs(" + canonAbs(p) + ")")}
+					continue
+				}
+			}
 			if callee == nil || !InModule(callee) || callee.Blocks == nil {
 				name := CalleeName(x)
 				env[x] = opaqueNode(x.Type(), "call to "+name)
